@@ -84,7 +84,7 @@ reg(id="C08", props="Props/C08.v", proof_files=["Proofs/TransportProofs.v", "Pro
          "the byte the descriptors ride on is known; judged against the specification encoding. non-trivial = the whole run invoked a handler",
     trusted_base=BE_TB, assumptions=BE_ASSUME + ["sender side: sendmsg accepts a prefix of the offered bytes or fails with an errno (oracle); "
                                                    "SCM_RIGHTS of a partially accepted sendmsg travel with its first byte"])
-reg(id="C01", props="Props/C01.v", proof_files=["Proofs/WireProofs.v", "Proofs/CodecProofs.v", "Proofs/TxSpecProofs.v"], families=[Fe(), Be(), Tx()],
+reg(id="C01", props="Props/C01.v", proof_files=["Proofs/WireProofs.v", "Proofs/CodecProofs.v", "Proofs/TxSpecProofs.v", "Proofs/FwdProofs.v"], families=[Fe(), Be(), Tx()],
     rule=FE_RULE + " || " + BE_RULE + " || family tx: every descriptor-carrying frontend request through a socket whose first sendmsg is refused (EAGAIN) or "
     "accepts k bytes: the descriptors must ride on the first byte that reaches the wire", trusted_base=FE_TB + BE_TB, assumptions=BE_ASSUME)
 reg(id="C02", props="Props/C02.v", proof_files=["Proofs/FeProofs.v", "Proofs/BeProofs.v", "Proofs/TableProofs.v", "Proofs/CodecProofs.v", "Proofs/E2EProofs.v", "Proofs/TxSpecProofs.v"], families=[Sess(), Fe(), Be()],
@@ -100,7 +100,7 @@ PX_TB = ["hand models Model/Proxy.v of the Backend proxy and of FrontendReqHandl
          "Spec/ProxySpec.v: my transcription of the backend-request table, the acknowledgement rule and the validity of handler invocations"]
 reg(id="C06", props="Props/C06.v", proof_files=["Proofs/FeProofs.v", "Proofs/ProxyProofs.v", "Proofs/GpuProofs.v"], families=[Fe(), Fsrv(), Proxy(), Gpu()],
     rule=FE_RULE + " || " + PX_RULE, trusted_base=FE_TB + PX_TB, assumptions=BE_ASSUME)
-reg(id="C18", props="Props/C18.v", proof_files=["Proofs/ProxyProofs.v"], families=[Psess(), Fsrv(), Proxy()],
+reg(id="C18", props="Props/C18.v", proof_files=["Proofs/ProxyProofs.v", "Proofs/FwdProofs.v"], families=[Psess(), Fsrv(), Proxy()],
     rule=PX_RULE, trusted_base=PX_TB, assumptions=BE_ASSUME)
 DMN_RULE = ("family dmn: a real VhostUserDaemon (Mutex- and RwLock-backed rings) with a recording backend, driven through its socket by the real "
             "Frontend with acknowledgements on: random histories of SET_FEATURES with/without PROTOCOL_FEATURES, SET_VRING_KICK with new descriptors, "
